@@ -269,7 +269,8 @@ class BitEval(object):
             elif "v" in t:
                 b = env.lookup(t)
                 if b is None:
-                    return None
+                    # a container that is a parameter or a local of the function itself
+                    return "var:" + t["v"]
                 t, env = b
             else:
                 return None
@@ -305,7 +306,23 @@ class BitEval(object):
             return None
         return fs[0]
 
+    @staticmethod
+    def fit(bits, w, sgn):
+        """the value as an object of an integer type of width w: the low w bits, the rest filled by sign or zero extension"""
+        w = min(int(w), W)
+        if w >= W:
+            return bits[:W]
+        top = bits[w - 1] if sgn else Z
+        return bits[:w] + [top] * (W - w)
+
+    def typed(self, bits, t):
+        if t.get("w") is not None:
+            return self.fit(bits, t["w"], bool(t.get("sgn")))
+        return bits
+
     def bits(self, t, env, d=0):
+        """64 bits, LSB first, of an integer expression tree.  A bit is 0, 1, an input bit ('I', buffer, offset, bit), a sextet bit
+        ('S', buffer, offset, bit), a combination ('or'|'and', frozenset of such bits), or unknown."""
         if t is None or d > 40:
             return [UNK] * W
         if "c" in t:
@@ -314,15 +331,16 @@ class BitEval(object):
             b = env.lookup(t)
             if b is None:
                 return [UNK] * W
-            return self.bits(b[0], b[1], d + 1)
+            return self.typed(self.bits(b[0], b[1], d + 1), t)
         op = t.get("op")
         if op == "elem":
             k = self.elem(t, env)
             if k is None:
                 return [UNK] * W
-            return [("I", k[0], k[2], b) for b in range(8)] + [Z] * (W - 8)
+            w = int(t.get("w") or 8)
+            return self.fit([("I", k[0], k[2], b) for b in range(w)] + [Z] * (W - w), w, bool(t.get("sgn")))
         if op == "cast":
-            return _cut(self.bits(t["a"][0], env, d + 1), min(int(t.get("w") or W), W))
+            return self.fit(self.bits(t["a"][0], env, d + 1), int(t.get("w") or W), bool(t.get("sgn")))
         if op == "call":
             fn = t.get("fn") or ""
             args = t.get("a", [])
@@ -346,8 +364,7 @@ class BitEval(object):
                     genv = func_env(g, parent=parent)
                     for n_, a_ in zip(pn, args):
                         genv.byname[n_] = (a_, env)
-                    r = self.bits(rets[0]["xt"], genv, d + 1)
-                    return _cut(r, int(t["w"])) if t.get("w") else r
+                    return self.typed(self.bits(rets[0]["xt"], genv, d + 1), t)
             self.unmodelled.append("call of %s" % fn)
             return [UNK] * W
         if op in ("<<", ">>") and len(t.get("a", [])) == 2:
@@ -356,17 +373,33 @@ class BitEval(object):
                 return [UNK] * W
             n = n[1]
             x = self.bits(t["a"][0], env, d + 1)
-            r = ([Z] * n + x[:W - n]) if op == "<<" else (x[n:] + [Z] * n)
-            return _cut(r, int(t["w"])) if t.get("w") else r
+            # (the operand carries its own extension: a negative signed value has copies of its sign bit up to bit 63, so shifting the
+            # 64-bit vector right is the arithmetic shift for signed and the logical shift for unsigned operands)
+            r = ([Z] * n + x[:W - n]) if op == "<<" else (x[n:] + [x[W - 1]] * n)
+            return self.typed(r, t)
         if op in ("&", "|") and len(t.get("a", [])) == 2:
             x, y = self.bits(t["a"][0], env, d + 1), self.bits(t["a"][1], env, d + 1)
             r = []
             for a, b in zip(x, y):
                 if op == "&":
-                    r.append(Z if (a == Z or b == Z) else b if a == ONE else a if b == ONE else a if a == b else UNK)
+                    v = Z if (a == Z or b == Z) else b if a == ONE else a if b == ONE else a if a == b else None
                 else:
-                    r.append(ONE if (a == ONE or b == ONE) else b if a == Z else a if b == Z else a if a == b else UNK)
-            return _cut(r, int(t["w"])) if t.get("w") else r
+                    v = ONE if (a == ONE or b == ONE) else b if a == Z else a if b == Z else a if a == b else None
+                if v is None:
+                    if a == UNK or b == UNK:
+                        v = UNK
+                    else:
+                        # two different input bits combined: a value that depends on both
+                        kind = "and" if op == "&" else "or"
+                        parts = set()
+                        for z in (a, b):
+                            if z[0] == kind:
+                                parts |= z[1]
+                            else:
+                                parts.add(z)
+                        v = (kind, frozenset(parts))
+                r.append(v)
+            return self.typed(r, t)
         self.unmodelled.append("operator %s" % op)
         return [UNK] * W
 
@@ -472,6 +505,9 @@ def run(ck):
             "the getters split at the first delimiter, the password starts one delimiter after the user, and the setter refuses a user "
             "that contains the delimiter", 6)
 
+    ck.rule("C20-R5", "C path automaton on static / thread_local locals over the call closure",
+            "the encoder, the decoder and the Basic credential accessors keep no state between calls: a static or thread_local local "
+            "in their call closure is overwritten as a whole (clear / assignment) before anything else is done with it on every path", 1)
     enc = lib.single(prog, "Base64Encoder::EncodeByte")
     dec = lib.single(prog, "Base64Decoder::DecodeCharacter")
     ck.touch(enc)
@@ -560,65 +596,146 @@ def run(ck):
     def rname(r):
         return r if isinstance(r, str) else "branch%s.%s" % r
 
-    # -- encoder
+    # -- encoders: every function of the Base64 unit that emits sextets (stores `out.at(k) = ...` / `out[k] = ...` with an explicit
+    #    position, or appends `out += ...` / `out.push_back(...)` whose position is their order within the group)
     bev = BitEval(prog)
-    eenv = func_env(E)
-    es = stores(E, bev, eenv, "::m_Base64EncodedString")
-    ck.require(es, "Encode() has no element stores into the output string (layout not recognised)")
-    groups = {}
-    for r, off, e in es:
-        groups.setdefault(r, []).append((off, e))
-    tails_n = []
-    for r, sts in sorted(groups.items(), key=lambda x: str(x[0])):
-        # the sextets of this group and the input octets they read
-        parsed = []
-        n_in = 0
-        for off, e in sts:
-            t = e.get("xt")
-            while t and t.get("op") == "cast":
-                t = t["a"][0]
-            if t is not None and "c" in t:
-                parsed.append((off, e, "const", t["c"]))
-                continue
-            if not t or t.get("op") != "call" or strip_tmpl(t.get("fn") or "") != "Base64Encoder::EncodeByte" or len(t.get("a", [])) != 1:
-                parsed.append((off, e, "other", None))
-                continue
-            bits = bev.bits(t["a"][0], eenv)[:8]
-            got = [("IN", x[2], x[3]) if (x[0] == "I" and x[1].endswith("::m_InputBuffer")) else (UNK if x[0] in ("I", "S") else x) for x in bits]
-            for x in got:
-                if x[0] == "IN":
-                    n_in = max(n_in, x[1] + 1)
-            parsed.append((off, e, "sextet", got))
-        gname = rname(r)
-        offs = sorted(o for o, *_ in parsed)
-        ck.ob("C20-R2", "enc:%s:positions" % gname, offs == [0, 1, 2, 3], sts[0][1].loc, E,
-              "every group writes the output positions 0..3 exactly once; this one writes %s" % offs)
-        if r == "loop":
-            ck.ob("C20-R2", "enc:loop:octets", n_in == 3, sts[0][1].loc, E, "the full-group loop encodes 3 octets; it reads %d" % n_in)
-        else:
-            tails_n.append(n_in)
-        n_out = n_in + 1
-        for off, e, kind, val in parsed:
-            key = "enc:%s:%d" % (gname, off)
-            if off >= n_out:
-                ck.ob("C20-R2", key, kind == "const" and val == PAD, e.loc, E,
-                      "position %d of a %d-octet tail must be the padding character '='; written: %s" % (off, n_in, e.get("t")))
-                continue
-            if kind != "sextet":
-                ck.ob("C20-R2", key, False, e.loc, E, "sextet %d of a group of %d octet(s) must be written through EncodeByte; written: %s" % (off, n_in, e.get("t")))
-                continue
-            want = []
-            for b in range(6):
-                g = 6 * (3 - off) + b
-                i, c = 2 - g // 8, g % 8
-                want.append(("IN", i, c) if i < n_in else Z)
-            want += [Z, Z]
-            verdict("C20-R2", key, val, want, e, E,
-                    "sextet %d of a group of %d octet(s) must be the bits %s with the two upper bits of EncodeByte's argument zero" % (off, n_in, want[:6]))
-    ck.ob("C20-R2", "enc:tail-cases", sorted(tails_n) == [1, 2], E.loc, E,
-          "the tail of Encode() must handle exactly 1 and 2 left-over octets; tail groups read %s octet(s)" % sorted(tails_n), structural=True)
-    st = strides(E)
-    ck.ob("C20-R2", "enc:strides", sorted(st.values()) == [3, 4], E.loc, E, "the full-group loop of Encode() must advance input by 3 and output by 4: %s" % st)
+    APPEND = re.compile(r"^std::basic_string::(operator\+=|push_back|append)$")
+
+    def payload(f, env, xt, const):
+        """('sextet', bits) | ('const', [codes]) | ('other', None)"""
+        if isinstance(const, str) and const.startswith("c:"):
+            return ("const", [int(const[2:])])
+        if isinstance(const, str) and const.startswith("s:"):
+            return ("const", [ord(c) for c in const[2:]])
+        if isinstance(const, int):
+            return ("const", [const])
+        t = xt
+        while t and t.get("op") == "cast":
+            t = t["a"][0]
+        if t is None:
+            return ("other", None)
+        if "c" in t:
+            return ("const", [t["c"]])
+        if t.get("op") == "call" and strip_tmpl(t.get("fn") or "") == "Base64Encoder::EncodeByte" and len(t.get("a", [])) == 1:
+            return ("sextet", bev.bits(t["a"][0], env)[:8])
+        if t.get("op") == "elem" and "v" in (t.get("base") or {}) and env.lookup(t["base"]) is None:
+            # an alphabet table indexed by the sextet: the table must be the RFC alphabet
+            fake = {"xt": t, "fl": f.file}
+            ta = table_arms(prog, fake, 0, 63, lambda it: 0)
+            if ta is not None:
+                okt = [(x, y, d_) for (x, y, d_) in ta] == [(lo, hi, off) for (lo, hi, off) in RFC]
+                ck.ob("C20-R1", "table:%s:%s" % (f.base.rsplit("::", 1)[-1], t["base"]["v"]), okt, f.loc, f,
+                      "a character table indexed by a sextet must be the RFC 4648 alphabet; %s maps %s" % (t["base"]["v"], ta))
+                return ("sextet", bev.bits(t.get("i"), env)[:8])
+        return ("other", None)
+
+    def emissions(f):
+        env = func_env(f)
+        dom = cfg.dominators(f)
+        loops = cfg.natural_loops(f)
+        out = []
+        for e in f.events(("assign", "call")):
+            if e["k"] == "assign":
+                if e.get("op") != "=":
+                    continue
+                k = bev.elem(e.get("lxt"), env)
+                if k is None:
+                    continue
+                kind, val = payload(f, env, e.get("xt"), e.get("const"))
+                out.append((control_region(f, dom, loops, e.block), k[0], k[2], kind, val, e))
+            elif APPEND.match(strip_tmpl(e.get("callee") or "")):
+                rv = e.get("recv") or {}
+                args = [a for a in (e.get("args") or []) if not a.get("dflt")]
+                if strip_tmpl(e["callee"]).endswith("operator+=") and len(args) == 2:
+                    rv, args = args[0], args[1:]
+                if len(args) != 1:
+                    continue
+                dest = strip_tmpl(rv.get("f") or "") or ("var:" + (rv.get("v") or rv.get("root") or "?"))
+                kind, val = payload(f, env, args[0].get("xt"), args[0].get("const"))
+                out.append((control_region(f, dom, loops, e.block), dest, None, kind, val, e))
+        return out, env
+
+    unit_funcs = [f for f in prog.funcs.values() if os.path.basename(f.file) in ("base64.cc", "base64.h") and not f.is_lambda]
+    ck.require(unit_funcs, "no function of base64.cc / base64.h in the analysed program")
+    seen_ids = set()
+    n_encoders = 0
+    for f0 in sorted(unit_funcs, key=lambda f: f.id):
+        if f0.id in seen_ids:
+            continue
+        seen_ids.add(f0.id)
+        f = prog.flat(f0)
+        em, eenv = emissions(f)
+        groups = {}
+        for r, dest, off, kind, val, e in em:
+            groups.setdefault((r, dest), []).append((off, kind, val, e))
+        groups = {k: v for k, v in groups.items() if any(kind == "sextet" for _, kind, _, _ in v)}
+        if not groups:
+            continue
+        n_encoders += 1
+        ck.touch(f)
+        fn = f.base.rsplit("::", 1)[-1]
+        tails_n = []
+        loop_seen = False
+        for (r, dest), sts in sorted(groups.items(), key=lambda x: str(x[0])):
+            # positions: explicit for element stores, the running count for appends
+            parsed = []
+            pos = 0
+            for off, kind, val, e in sts:
+                if kind == "const":
+                    for c in val:
+                        parsed.append((off if off is not None else pos, "const", c, e))
+                        pos += 1
+                else:
+                    parsed.append((off if off is not None else pos, kind, val, e))
+                    pos += 1
+            n_in = 0
+            canon = []
+            for off, kind, val, e in parsed:
+                if kind == "sextet":
+                    got = [("IN", x[2], x[3]) if x[0] == "I" else x for x in val]
+                    for x in got:
+                        if x[0] == "IN":
+                            n_in = max(n_in, x[1] + 1)
+                        elif x[0] in ("or", "and"):
+                            for y in x[1]:
+                                if y[0] == "I":
+                                    n_in = max(n_in, y[2] + 1)
+                    canon.append((off, kind, got, e))
+                else:
+                    canon.append((off, kind, val, e))
+            gname = "%s:%s" % (fn, rname(r))
+            offs = sorted(o for o, *_ in canon)
+            ck.ob("C20-R2", "enc:%s:positions" % gname, offs == [0, 1, 2, 3], sts[0][3].loc, f,
+                  "every group writes the output positions 0..3 exactly once; this one writes %s" % offs)
+            if r == "loop":
+                loop_seen = True
+                ck.ob("C20-R2", "enc:%s:octets" % gname, n_in == 3, sts[0][3].loc, f, "the full-group loop encodes 3 octets; it reads %d" % n_in)
+            else:
+                tails_n.append(n_in)
+            n_out = n_in + 1
+            for off, kind, val, e in canon:
+                key = "enc:%s:%d" % (gname, off)
+                if off >= n_out:
+                    ck.ob("C20-R2", key, kind == "const" and val == PAD, e.loc, f,
+                          "position %d of a %d-octet tail must be the padding character '='; written: %s" % (off, n_in, e.get("t")))
+                    continue
+                if kind != "sextet":
+                    ck.ob("C20-R2", key, False, e.loc, f, "sextet %d of a group of %d octet(s) must be written through the alphabet; written: %s" % (off, n_in, e.get("t")))
+                    continue
+                want = []
+                for b in range(6):
+                    g = 6 * (3 - off) + b
+                    i, c = 2 - g // 8, g % 8
+                    want.append(("IN", i, c) if i < n_in else Z)
+                want += [Z, Z]
+                verdict("C20-R2", key, val, want, e, f,
+                        "sextet %d of a group of %d octet(s) must be the bits %s (and nothing above them)" % (off, n_in, want[:6]))
+        ck.ob("C20-R2", "enc:%s:tail-cases" % fn, sorted(tails_n) == [1, 2] and loop_seen, f.loc, f,
+              "an encoder has a full-group loop and tail groups for exactly 1 and 2 left-over octets; tail groups read %s octet(s)" % sorted(tails_n), structural=True)
+        st = strides(f)
+        ck.ob("C20-R2", "enc:%s:strides" % fn, 3 in st.values() and set(st.values()) <= {3, 4}, f.loc, f,
+              "the full-group loop must advance the input by 3 (and an indexed output by 4): %s" % st)
+    ck.require(n_encoders >= 1, "no sextet-emitting function found in the Base64 unit (layout not recognised)")
 
     # -- decoder: an octet's bits do not depend on how many octets the group has, so every store is judged on its own
     bev = BitEval(prog, "Base64Decoder::DecodeCharacter")
@@ -807,3 +924,11 @@ def run(ck):
     ck.require(uo, "getBasicUser: the position arithmetic on the delimiter is not recognised")
     ck.ob("C20-R4", "getBasicUser:ends-at-the-delimiter", all(k == 0 for k, e in uo), uo[0][1].loc, guser,
           "the user ends exactly at the delimiter position; the code adds %s" % [k for k, e in uo], structural=True)
+
+    # ---- R5: no state survives a call
+    roots = [f for f in prog.funcs.values() if os.path.basename(f.file) in ("base64.cc", "base64.h") and not f.is_lambda] + [setter, guser, gpass, hm]
+    stale, nlooked = lib.stale_static_state(prog, roots, file_ok=lambda p: "/pistache/" in p or "/src/" in p)
+    ck.ob("C20-R5", "no-stale-static-state", not stale, (stale[0][2].loc if stale else roots[0].loc), (stale[0][0] if stale else roots[0]),
+          ("%d functions in the closure, none keeps data in a static local" % nlooked) if not stale else
+          "static local `%s` of %s still holds what an earlier call left in it when it is used at %s" % (stale[0][1]["var"], stale[0][0].name, stale[0][2].loc),
+          path=(stale[0][3] if stale else None))
